@@ -45,10 +45,10 @@ class Solvers:
         self.answers[name][ans] = self.answers[name].get(ans, 0) + 1
         return ans, dt
 
-    def check(self, formulas, need_model=True, witness=False):
+    def check(self, formulas, need_model=True, witness=False, quick_pass=False):
         self.queries += 1
         s = z3.Solver()
-        s.set('timeout', self.timeout_s * 1000)
+        s.set('timeout', (5 if quick_pass else self.timeout_s) * 1000)
         for f in formulas:
             s.add(f)
         answers, times = {}, {}
@@ -60,6 +60,8 @@ class Solvers:
         self.answers['z3'][str(r)] = self.answers['z3'].get(str(r), 0) + 1
         model = s.model() if r == z3.sat else None
         smt2 = None
+        if quick_pass and answers['z3'] != 'unsat':
+            return Verdict('unknown', None, answers, times, len(formulas))
         if witness and answers['z3'] == 'sat':
             # a reachability witness only needs one solver to exhibit a model
             return Verdict('sat', model, answers, times, len(formulas))
